@@ -320,7 +320,21 @@ func checkPacket(c *collector, p pkt, sb bool, st *stats) {
 // packetKinds: 7 text types + binary message (NewPacket allows binary only for messages).
 var packetKinds = []pkt{{0, false, nil}, {1, false, nil}, {2, false, nil}, {3, false, nil}, {4, false, nil}, {5, false, nil}, {6, false, nil}, {4, true, nil}}
 
-var patternLens = []int{3, 57, 58, 59, 1000}
+// patternLens: payload lengths run with a fixed byte pattern for every packet kind in both modes: every
+// length up to 4200 (all base64 padding classes across the 1 KiB / 2 KiB / 3 KiB / 4 KiB marks, where a
+// chunked or buffered encoder would show its seams) and the neighbourhoods of 8 KiB ... 64 KiB.
+var patternLens = func() []int {
+	var ls []int
+	for l := 3; l <= 4200; l++ {
+		ls = append(ls, l)
+	}
+	for _, c := range []int{8192, 16384, 32768, 49152, 65536} {
+		for l := c - 5; l <= c+5; l++ {
+			ls = append(ls, l)
+		}
+	}
+	return append(ls, 70000)
+}()
 
 func partPackets(c *collector, tier string) (stats, int) {
 	const groups = 257 // 0: empty, all 1-byte payloads, pattern lengths; g>0: 2-byte payloads starting with g-1
@@ -1064,7 +1078,7 @@ func main() {
 
 	r := vx.NewReport("C11", *tier, "exploration")
 	r.Rule = "exhaustive product enumeration, each case checked against reference encoders written from the Engine.IO v4 protocol text: " +
-		"(packet) 7 text types + binary message x every payload of length <= 2 over 256 byte values (text: without 0x1e) and pattern payloads of length 3/57/58/59/1000 x {binary supported, base64} (thorough: binary in base64 mode also every payload of length 3); " +
+		"(packet) 7 text types + binary message x every payload of length <= 2 over 256 byte values (text: without 0x1e) and pattern payloads of every length 3..4200 plus the neighbourhoods (+-5) of 8/16/32/48/64 KiB and 70000 x {binary supported, base64} (thorough: binary in base64 mode also every payload of length 3); " +
 		"(handshake) OPEN bodies; (payload) every sequence of 0..N packets over a 13-packet alphabet; (wt) every frame length in the tier's set x {binary, text} through send and nextPacket in the server (limited reader, delivered whole and in pieces: 12 single bytes, then 1021-byte chunks) and client compositions, each followed by a second frame; " +
 		"(arbitrary) every byte string of length <= 2, length 3 (thorough: all, quick: every 251st) and 'b' + base64-directed strings into every decoder; (alloc) frame headers declaring more than the limit, in a memory-capped subprocess. " +
 		"Every case is generated once (distinct by construction); distinct_nontrivial counts the cases with a non-empty payload (packet), >= 2 packets (payload), frame length >= 1 (wt), non-empty input (arbitrary), and all handshake and alloc cases"
@@ -1123,7 +1137,7 @@ func main() {
 
 	if want("packet") {
 		st, sk := partPackets(c, *tier)
-		pl := "all of length 0,1,2 over 256 values + pattern lengths 3,57,58,59,1000"
+		pl := "all of length 0,1,2 over 256 values + pattern lengths 3..4200, 8/16/32/48/64 KiB +-5, 70000"
 		if *tier == "thorough" {
 			pl += "; binary message in base64 mode also with every payload of length 3"
 		}
